@@ -14,7 +14,7 @@ NAME = "imusim"
 SIM_UNIT = "IMU frames"
 BUDGET = {"quick": {"runs": 2200, "wall": 80}, "thorough": {"runs": 60000, "wall": 1200}}
 SHRINK_LISTS = ("ops",)
-PROBES = {"C16": ["prop_cov=False", "per-axis-noise-cov", "layout:strided", "layout:expanded-dt", "explicit-init-state", "reset=True-repeat", "chunk-of-one", "all-singletons", "F-not-pow2-minus-1", "rank-FH", "rank-H", "known-rot",
+PROBES = {"C16": ["ctor-tensors-reused", "dt:const-per-row", "prop_cov=False", "per-axis-noise-cov", "layout:strided", "layout:expanded-dt", "explicit-init-state", "reset=True-repeat", "chunk-of-one", "all-singletons", "F-not-pow2-minus-1", "rank-FH", "rank-H", "known-rot",
                   "integrated-rot+gravity", "zero-gravity", "float32", "batch>1", "nonidentity-init"]}
 
 # tolerance constants: calibrated on the repaired tree, worst observed ratio noted in DESIGN.md
@@ -30,7 +30,7 @@ def generate(seed, tier, prop="C16"):
         F = r.choice([1, 2, 3, 4, 5, 6, 7, 8, 9, 15, 16, 17, 31, 32, 33, 63, 64, 65, 127, 128, 129, 200])
     B = r.choice([1, 1, 2, 3, 4])
     cfg = {"F": F, "B": B, "dtype": r.choice(["f64", "f64", "f32"]),
-           "dt_mode": r.choice(["const", "rand", "rand"]), "dt": rng.loguniform(r, 1e-4, 1.0),
+           "dt_mode": r.choice(["const", "const-per-row", "rand", "rand"]), "dt": rng.loguniform(r, 1e-4, 1.0),
            "gyro_scale": r.choice([0.0, 0.05, 0.5, 3.0]), "acc_scale": r.choice([0.0, 1.0, 10.0]),
            "known_rot": r.random() < 0.35, "gravity": r.choice([9.81007, 9.81007, 0.0, 1.62]),
            "init": r.random() < 0.6, "init_batched": r.random() < 0.4, "explicit": r.random() < 0.4,
@@ -142,6 +142,11 @@ def execute(plan, prop, out, tr):
     eps = 2.3e-16 if c["dtype"] == "f64" else 1.2e-7
     if c["dt_mode"] == "const":
         dt = torch.full((B, F, 1), c["dt"], dtype=torch.float64).to(dtype)
+    elif c["dt_mode"] == "const-per-row":
+        # every batch row is fixed-rate, each at its own rate
+        rates = c["dt"] * (1.0 + 0.37 * torch.arange(B, dtype=torch.float64)).clamp(max=1.0 / max(c["dt"], 1e-9))
+        dt = rates.clamp(1e-4, 1.0).reshape(B, 1, 1).expand(B, F, 1).clone().to(dtype)
+        out.probe("dt:const-per-row")
     else:
         dt = torch.exp(rng.rand(s, ("dt",), (B, F, 1), None, np.log(1e-4), 0.0)).to(dtype)
     gyro = rng.randn(s, ("gyro",), (B, F, 3), dtype, c["gyro_scale"])
@@ -333,6 +338,24 @@ def execute(plan, prop, out, tr):
         if r6.get("cov") is not None:
             raise Violation("C16.cov", "prop_cov=False returned a covariance", 0, "cov:nocov")
         out.probe("prop_cov=False"); out.ops += 1
+    # --- (ii-d) the tensors handed to the constructor stay the caller's: changing them afterwards, or writing into one
+    #     integrator's buffers, does not change what this or any other integrator computes
+    if rng.H(s, "alias") % 4 == 0:
+        pa, ra, va = p0.clone(), r0.clone(), v0.clone()
+        m7 = pp.module.IMUPreintegrator(pos=pa, rot=ra, vel=va, gravity=c["gravity"], reset=True, **ctor_kw)
+        m7 = m7.double() if dtype == torch.float64 else m7
+        pa.add_(5.0); va.mul_(-3.0)                     # the caller re-uses its tensors
+        mdef = pp.module.IMUPreintegrator()             # a default-constructed integrator ...
+        with torch.no_grad():
+            mdef.vel.add_(7.0); mdef.pos.add_(-2.0)    # ... whose buffers are written in place
+        r7 = _guard(lambda: feed(m7, 0, F, "BFH"), "reset=True call after the caller re-used the constructor tensors", 0, "raises:alias")
+        compare("ctor-tensors-reused", r7, 0)
+        m8 = pp.module.IMUPreintegrator(reset=True)
+        if float(m8.vel.abs().max()) != 0.0 or float(m8.pos.abs().max()) != 0.0:
+            raise Violation("C16.state", "a freshly default-constructed integrator does not start at rest at the origin after another "
+                            "integrator's buffers were written in place (vel %s, pos %s)" % (m8.vel.flatten().tolist(), m8.pos.flatten().tolist()),
+                            0, "state:shared-defaults")
+        out.probe("ctor-tensors-reused"); out.ops += 1
     # --- (iii) ranks
     if B == 1:
         m3 = mk()
